@@ -101,6 +101,22 @@ def run(full=False):
         bad = os.path.join(ctx.scratch, "bin-bad.ndjson")
         mutate_trace(tf, bad, flip_byte)
         expect_reject(ctx, "TraceBinary: one byte of an as_bytes output flipped", "trace/TraceBinary.cfg", "trace/TraceBinary.tla", bad, results)
+        # --- TraceLinkage: a recorded clustering run is accepted, a corrupted one rejected
+        ltf = os.path.join(ctx.scratch, "lk")
+        ls = hv(ctx, "record-linkage", trace=ltf, runs=40, max_n=9)
+        grp = next(g for g in ls["extra"]["groups"] if g["mode"] == "average" and g["n"] >= 5)
+        lcfg = hvlib.cfgfile(ctx, "TraceLinkageSelf", "trace/TraceLinkage.tla", f'SPECIFICATION TSpec\nCONSTANTS\n  N = {grp["n"]}\n  Mode = "average"\nPOSTCONDITION Accepted\nCHECK_DEADLOCK FALSE\n')
+        ok, _ = tlc_trace(ctx, lcfg, "trace/TraceLinkage.tla", grp["file"])
+        results.append(("unmodified recorded clustering run accepted (TraceLinkage)", ok))
+
+        def bump_dist(recs):
+            for r in recs:
+                if r.get("e") == "Merge":
+                    r["dist"] += 1
+                    return
+        bad = os.path.join(ctx.scratch, "lk-bad.ndjson")
+        mutate_trace(grp["file"], bad, bump_dist)
+        expect_reject(ctx, "TraceLinkage: one recorded merge distance changed", lcfg, "trace/TraceLinkage.tla", bad, results)
         # --- the design-level invariants have teeth: mutated SPECIFICATIONS must be refuted by TLC
         import shutil, re as _re
         specmut = [
@@ -120,7 +136,7 @@ def run(full=False):
              "mc/MC_Refine3q.cfg", "mc/MC_Refine.tla", "refinement: a binary loader that drops a direct term of the record does not refine HpoCore!LoadRecord"),
             ("HpoLinkage.tla", "MinPairs(act, d) == {p \\in Pairs(act) : \\A q \\in Pairs(act) : d[p] <= d[q]}", "MinPairs(act, d) == {p \\in Pairs(act) : \\A q \\in Pairs(act) : d[p] >= d[q]}",
              "mc/MC_Linkage_single.cfg", "mc/MC_Linkage.tla", "linkage machine: the farthest pair is merged first (Monotone must fail)"),
-            ("HpoSetMachine.tla", "[] op.name = \"child_nodes\"                               -> {t \\in S : ~\\E u \\in S : t \\in Anc(WPar, u)}", "[] op.name = \"child_nodes\"                               -> {t \\in S : ~\\E u \\in S : u \\in Anc(WPar, t)}",
+            ("HpoSetMachine.tla", "[] op.name = \"child_nodes\"                               -> {t \\in S : ~\\E u \\in S : t \\in AncTab[u]}", "[] op.name = \"child_nodes\"                               -> {t \\in S : ~\\E u \\in S : u \\in AncTab[t]}",
              "mc/MC_SetMachine1.cfg", "mc/MC_SetMachine.tla", "set machine: child_nodes keeps the ancestors instead (AggregateLaws must fail)"),
             ("HpoReject.tla", "IF OldCode /\\ p \\in Terms", "IF p \\in Terms",
              "mc/MC_Reject.cfg", "mc/MC_Reject.tla", "builder: a rejected add_parent that mutates the parent first (NoDangling / RejectedStutters must fail)"),
